@@ -92,9 +92,11 @@ func NewBase(backend, tmp string, closers *[]func()) (corestore.KVStoreWithBatch
 	case "memdb":
 		return dbm.NewMemDB(), nil
 	case "prefix":
-		return dbm.NewPrefixDB(dbm.NewMemDB(), []byte("s/k:store/")), nil
+		// (the prefix slices have spare capacity, as a prefix assembled in a buffer or by string
+		// concatenation has: code that appends to the prefix without copying it corrupts its neighbours)
+		return dbm.NewPrefixDB(dbm.NewMemDB(), append(make([]byte, 0, 64), []byte("s/k:store/")...)), nil
 	case "prefixff":
-		return dbm.NewPrefixDB(seam.NewMemStore(), []byte{0xff, 0xff}), nil
+		return dbm.NewPrefixDB(seam.NewMemStore(), append(make([]byte, 0, 32), 0xff, 0xff)), nil
 	case "goleveldb":
 		dir, err := os.MkdirTemp(tmp, "ldb")
 		if err != nil {
